@@ -143,6 +143,9 @@ namespace ip {
 		m_bound_to = bind_ip;
 		m_user_bound_to = bind_ip;
 		m_channel = c;
+		// the accepting side segments by the path MTU too
+		m_mss = m_io_service.get_path_mtu(m_bound_to.address(), c->ep[0].address());
+		m_cwnd = m_mss * 2;
 		assert(m_forwarder);
 		c->hops[1].replace_last(m_forwarder);
 	}
